@@ -103,7 +103,7 @@ def get_nan_intervals(data: np.ndarray) -> list:
         raise ValueError(f"data array must be 1- or 2-dimensional. It has {data.ndim} dimensions.")
     isnan_list = np.any(np.isnan(data), axis=1) if data.ndim > 1 else np.isnan(data)
     nan_indices = np.where(isnan_list)[0]
-    intervals = np.split(nan_indices, np.where(np.diff(nan_indices) > 1)[0] + 1)
-    if len(intervals) == 0:
+    if len(nan_indices) == 0:
         return []
+    intervals = np.split(nan_indices, np.where(np.diff(nan_indices) > 1)[0] + 1)
     return [(interval[0], interval[-1]) for interval in intervals]
